@@ -401,6 +401,8 @@ def hazards_of(design):
                     cur[p] = b + 1
     if grow:
         hz.append("port-growth")
+    if _unconn_width(design):
+        hz.append("unconn-width")
     if default_name_collision(design):
         hz.append("cname-default")
     if _later_drivers(design):
@@ -408,6 +410,27 @@ def hazards_of(design):
     if any(bb["declared"] and (bb["ins"] or bb["outs"]) for bb in design["bbs"]):
         hz.append("blackbox-ports")
     return hz
+
+
+def _unconn_width(design):
+    """some formal names a bit beyond the next free pin of its port (`J[1]=..` while `J` has no pin
+    yet): there the original one-pin-per-formal rule of parse_subcircuit_port and the repaired
+    grow-to-index rule part ways (pin creation order; the width too when the upper bits are `unconn`
+    wherever they are named).  The composer writes bus pins from the highest index down, so every
+    written bus formal list is of this kind."""
+    one = {}
+    for s in design["stmts"]:
+        if s["k"] in ("subckt", "gate"):
+            cur = one.setdefault(s["model"], {})
+            for (p, b, _ps, a) in s["conns"]:
+                if b > cur.get(p, 0):
+                    return True
+                if b > cur.get(p, 0) - 1:
+                    cur[p] = cur.get(p, 0) + 1
+            for (p, b, _ps, a) in s["conns"]:
+                if a is not None and b + 1 > cur[p]:
+                    cur[p] = b + 1
+    return False
 
 
 def _later_drivers(design):
@@ -493,4 +516,7 @@ def ablate(design, hz):
     elif hz == "blackbox-ports":
         for bb in d["bbs"]:
             bb["declared"] = False
+    elif hz == "unconn-width":
+        # every instance names all bits of its model's ports in ascending order: no formal skips a pin
+        _pad_formals(d["stmts"])
     return d
